@@ -240,7 +240,7 @@ func runOne(engine string, d rtDesc, shared wazero.CompilationCache, dir string,
 }
 
 func (c12) Run(t *tape.Tape, cfg sim.Config) (res sim.Result) {
-	o := plan.Opts{MinFuncs: 3, MaxFuncs: 8, MaxAtoms: 6, Host: true, Traps: true, Grow: true, Table: true, Segments: true, HostTags: 4, GRef: true}
+	o := plan.Opts{MinFuncs: 3, MaxFuncs: 8, MaxAtoms: 6, Host: true, Traps: true, Grow: true, Table: true, Segments: true, HostTags: 4, GRef: true, Wide: true}
 	focus := cfg.Class == "listener-sets-over-caches"
 	if focus || t.Chance(1, 4) {
 		o.MinFuncs, o.MaxFuncs, o.MaxAtoms = 66, 140, 3 // more functions than one 64-bit word of anything
